@@ -61,6 +61,10 @@ func genC15(t *rapid.T) CaseC15 {
 		// q at a power-of-two distance (+-1) from p, in either direction, modulo 2^33
 		k := uint(rapid.IntRange(0, 33).Draw(t, "q-rel-k"))
 		delta := uint64(1)<<k + uint64(rapid.IntRange(-1, 1).Draw(t, "q-rel-off")+1) - 1
+		if rapid.IntRange(0, 2).Draw(t, "q-rel-clock") == 0 {
+			// or a round duration of the 90 kHz clock: 1 ms .. 1 h, +-1 tick
+			delta = rapid.SampledFrom([]uint64{90, 900, 3003, 3600, 90000, 180000, 900000, 5400000, 162000000, 324000000}).Draw(t, "q-rel-dur") + uint64(rapid.IntRange(-1, 1).Draw(t, "q-rel-dur-off")+1) - 1
+		}
 		if rapid.Bool().Draw(t, "q-rel-back") {
 			c.Q = (c.P - delta) & c15Max
 		} else {
@@ -69,7 +73,7 @@ func genC15(t *rapid.T) CaseC15 {
 	}
 	switch rapid.IntRange(0, 4).Draw(t, "d-kind") {
 	case 0:
-		c.D = rapid.SampledFrom([]uint64{1, 2, 3, 161999998, 161999999, 162000000}).Draw(t, "d")
+		c.D = rapid.SampledFrom([]uint64{1, 2, 3, 161999998, 161999999, 162000000, 89999, 90000, 90001, 5400000, 3003}).Draw(t, "d")
 	case 1:
 		// land next to a threshold or exactly on the wrap
 		th := rapid.SampledFrom([]uint64{c15Lower, c15Upper, c15Max, c15Max + 1, c15Max + 2}).Draw(t, "d-th")
@@ -246,7 +250,7 @@ func checkC15(c CaseC15, x *hx.Ctx) (fail *hx.Failure) {
 var propC15 = hx.Register(hx.Prop[CaseC15]{ID: "C15", Gen: genC15, Check: checkC15})
 
 func c15Rule() {
-	hx.Rec("C15").SetRule("cases are (p, q, d): p, q 33-bit values drawn with bias to within 5 ticks of 0, 162000000, 2^33-1-162000000, 2^33-1 (and boundary-bit values), d in [1,162000000] biased to the window ends and to sums that land on a threshold or on the wrap; one case in five has q at a power-of-two distance (+-1) from p; every clause of the statement is checked against uint64 reference arithmetic. Non-trivial: p or q within 3 ticks of a threshold, or p+d wraps past 2^33-1. Distinct by (p,q,d).",
+	hx.Rec("C15").SetRule("cases are (p, q, d): p, q 33-bit values drawn with bias to within 5 ticks of 0, 162000000, 2^33-1-162000000, 2^33-1 (and boundary-bit values), d in [1,162000000] biased to the window ends and to sums that land on a threshold or on the wrap; one case in five has q at a power-of-two distance or at a round duration of the 90 kHz clock (1 ms .. 1 h), +-1 tick, from p; every clause of the statement is checked against uint64 reference arithmetic. Non-trivial: p or q within 3 ticks of a threshold, or p+d wraps past 2^33-1. Distinct by (p,q,d).",
 		"all values are 33-bit (the statement quantifies over 33-bit times)")
 }
 
@@ -275,7 +279,7 @@ func TestC15Exhaustive(t *testing.T) {
 		}
 	}
 	for _, p := range vals {
-		ds := []uint64{1, 2, 161999999, 162000000}
+		ds := []uint64{1, 2, 161999999, 162000000, 89999, 90000, 90001}
 		for _, land := range []uint64{c15Lower - 1, c15Lower, c15Lower + 1, c15Upper, c15Upper + 1, c15Max, c15Max + 1, c15Max + 2} {
 			if land > p && land-p <= c15Lower {
 				ds = append(ds, land-p)
